@@ -209,7 +209,12 @@ class _MaskedArrayFunc(object):
 
         # transform back to numpy array
         if np.ma.isMaskedArray(result):
-            result = result.filled(np.nan)
+            if self.__name__ in ('any', 'all'):
+                # nothing left once the NaNs are skipped: any() of nothing is False, all() of nothing is True
+                # (NaN cannot be stored in a boolean array: it would read as True)
+                result = np.ma.filled(result, self.__name__ == 'all')
+            else:
+                result = result.filled(np.nan)
 
         return result
 
